@@ -364,7 +364,10 @@ def graph_walkers(repo, res, rule="GW"):
                 if itname:
                     it_ok = it[0] == "mcall" and it[1] == itname and it[2][0] == "param" and it[3] and it[3][0][0] == "param"
                 else:
-                    it_ok = it[0] == "param"
+                    itp = it
+                    while itp[0] in ("ref", "deref") or (itp[0] == "mcall" and itp[1] in ("iter", "into_iter")):
+                        itp = itp[1] if itp[0] != "mcall" else itp[2]
+                    it_ok = itp[0] == "param"
                 # only `visited` may prune: enclosing ifs test visited; preceding early-continues test visited or a missing follow set
                 # the visited sets are the `&mut` set parameters of the walk, the follow map its map parameter (by type, not by name)
                 vis = [prm["name"] for prm in fn.params if prm.get("name") and "mut" in (prm.get("ty") or "") and re.search(r"RoaringBitmap|Set", prm.get("ty") or "")]
